@@ -1505,7 +1505,26 @@ pub trait QueryBuilder:
         if right_paren {
             write!(sql, "(").unwrap();
         }
-        self.prepare_simple_expr(right, sql);
+        match right {
+            // The bounds of `x BETWEEN a AND b` are operands of BETWEEN, not of a logical AND.
+            SimpleExpr::Binary(low, BinOper::And, high) if drop_right_between_hack => {
+                for (i, bound) in [low, high].into_iter().enumerate() {
+                    if i != 0 {
+                        write!(sql, " AND ").unwrap();
+                    }
+                    let bound_paren =
+                        !self.inner_expr_well_known_greater_precedence(bound, &(*op).into());
+                    if bound_paren {
+                        write!(sql, "(").unwrap();
+                    }
+                    self.prepare_simple_expr(bound, sql);
+                    if bound_paren {
+                        write!(sql, ")").unwrap();
+                    }
+                }
+            }
+            _ => self.prepare_simple_expr(right, sql),
+        }
         if right_paren {
             write!(sql, ")").unwrap();
         }
